@@ -69,13 +69,15 @@ func (f *Frame) call(v ssa.Value, c *ssa.CallCommon, st *state) {
 					what = "dynamic call " + c.Value.Name()
 				}
 			}
+			f.curFn = fv
 			f.applyCall(v, c, nil, contract, what, args, st)
+			f.curFn = Val{}
 			return
 		}
 	}
 	contract = u.W.funcContract(callee)
 	what = funcDisplayName(callee)
-	f.atCallAsserts(v.(ssa.Instruction), what, st)
+	f.atCallAsserts(v.(ssa.Instruction), what, st, args)
 	f.applyCall(v, c, callee, contract, what, args, st)
 }
 
@@ -233,12 +235,25 @@ func (f *Frame) callByContract(v ssa.Value, in ssa.Instruction, sig *types.Signa
 	env.frame = f
 	u.ncalls++
 	env.callID = fmt.Sprint(u.ncalls)
+	if c.Kind == "field" && f.curFn.T != "" {
+		// the function value being called (a contract on a function-typed field may speak about it)
+		env.vars["fnval"] = f.curFn
+	}
 	// let bindings
 	f.bindLets(env, c)
 	// preconditions
 	for _, cl := range c.ClausesOf("requires") {
 		t, err := env.evalBool(cl.Text)
 		if err != nil {
+			if u.sweep {
+				// a callee contract that no longer fits the source (stale after a refactoring): in a
+				// sweep the precondition becomes an obligation that cannot be discharged - it matters
+				// only to the property whose sweep keeps call-site preconditions (C02)
+				u.softFail("%s:%d: requires of %s: %v", cl.File, cl.Line, c.Key, err)
+				o := u.oblige("pre@callsite", f.fname, st.cur, "false", posStr(u.W.Fset, in.Pos()), "requires of "+what+" cannot be evaluated against the current source (stale contract): "+err.Error())
+				o.SpecErr = err.Error()
+				continue
+			}
 			u.W.fail("%s:%d: requires of %s: %v", cl.File, cl.Line, c.Key, err)
 			continue
 		}
@@ -408,6 +423,10 @@ func (f *Frame) callByContract(v ssa.Value, in ssa.Instruction, sig *types.Signa
 	for _, cl := range c.ClausesOf("ensures") {
 		t, err := env.evalBool(cl.Text)
 		if err != nil {
+			if u.sweep {
+				u.softFail("%s:%d: ensures of %s: %v", cl.File, cl.Line, c.Key, err)
+				continue
+			}
 			u.W.fail("%s:%d: ensures of %s: %v", cl.File, cl.Line, c.Key, err)
 			continue
 		}
@@ -428,6 +447,10 @@ func (f *Frame) callByContract(v ssa.Value, in ssa.Instruction, sig *types.Signa
 		}
 		t, err := env.evalBool(cl.Text)
 		if err != nil {
+			if u.sweep {
+				u.softFail("%s:%d: assume of %s: %v", cl.File, cl.Line, c.Key, err)
+				continue
+			}
 			u.W.fail("%s:%d: assume of %s: %v", cl.File, cl.Line, c.Key, err)
 			continue
 		}
@@ -525,7 +548,7 @@ func (f *Frame) foldCalleeGhosts(st *state, callee *ssa.Function, local map[stri
 			u.emit("(assert (>= " + cnt + " 0))")
 		}
 		u.hset(st.heap, "$g.n"+tag, "(+ "+oldN+" "+cnt+")")
-		for _, pre := range []string{"t", "recv", "arg", "ret"} {
+		for _, pre := range []string{"t", "recv", "arg", "ret", "ret1"} {
 			gi, ok := u.W.GhostSorts[pre+tag]
 			if !ok {
 				continue
@@ -1705,7 +1728,7 @@ func topConjuncts(t string) []string {
 
 // atCallAsserts: "atcall <callee> <ordinal> <expr>" clauses of the function under contract
 // are in-body assertions evaluated just before the N-th call of that callee.
-func (f *Frame) atCallAsserts(in ssa.Instruction, what string, st *state) {
+func (f *Frame) atCallAsserts(in ssa.Instruction, what string, st *state, args []Val) {
 	if !f.top || f.contract == nil {
 		return
 	}
@@ -1730,6 +1753,10 @@ func (f *Frame) atCallAsserts(in ssa.Instruction, what string, st *state) {
 		}
 		expr := strings.TrimSpace(strings.TrimPrefix(strings.TrimSpace(strings.TrimPrefix(cl.Text, fs[0])), fs[1]))
 		env := f.specEnvAt(in.Block(), st.heap)
+		// callarg<i>: the operands of this call (receiver first for a method)
+		for i, a := range args {
+			env.vars[fmt.Sprintf("callarg%d", i)] = a
+		}
 		t, err := env.evalBool(expr)
 		if err != nil {
 			u.W.fail("%s:%d: atcall: %v", cl.File, cl.Line, err)
